@@ -326,7 +326,15 @@ int main(int argc, char** argv) {
             std::vector<std::vector<uint64_t>> res(s.prog.size());
             for (size_t t = 0; t < s.prog.size(); ++t)
                 th.emplace_back([&, t] {
-                    for (auto& o : s.prog[t]) res[t].push_back(o.fn());
+                    for (auto& o : s.prog[t]) {
+                        // some scenarios contain calls the library rejects by design: an exception is an outcome here as it is
+                        // under the scheduler (it must not end the pass)
+                        try {
+                            res[t].push_back(o.fn());
+                        } catch (const std::exception&) {
+                            res[t].push_back(0xE0E0E0E0ull);
+                        }
+                    }
                 });
             for (auto& t : th) t.join();
         }
